@@ -111,6 +111,9 @@ var c10Alphabets = map[string]*c10Alphabet{
 		process: c10Values(c10NamedTypes, []uint32{1, 2}, []int{100, 200, -1}, true)},
 	"focused": {name: "focused", closeBy: "index", nClose: 4, again: true,
 		process: c10Values([]int{0x10, 0x13, 0x14, 0x30, 0x31, 0x40, 0x41, 0x50, 0x51}, []uint32{1, 2}, []int{100, 200}, false)},
+	// many pairwise different descriptors that share one of two signal times
+	"burst": {name: "burst", closeBy: "index", nClose: 2, again: true,
+		process: c10Values([]int{0x20, 0x10, 0x22, 0x30, 0x34, 0x40, 0x50}, []uint32{1, 2, 3}, []int{500, 600}, false)},
 	"distinct-pts": {name: "distinct-pts", closeBy: "index", nClose: 3, again: false, autoPTS: true,
 		process: c10Values([]int{0x10, 0x11, 0x13, 0x14, 0x22, 0x23, 0x40, 0x41, 0x50, 0x51}, []uint32{1, 2}, []int{0}, false)},
 }
@@ -536,14 +539,22 @@ func c10Scenario(name, rule, alphaQuick, alphaThorough string, depthQuick, depth
 }
 
 type c10Long struct {
-	Pattern int `json:"pattern"`
-	N       int `json:"n"`
-	Again   int `json:"again_at"` // position after which the same object is processed again (-1: never)
+	Pattern int    `json:"pattern"`
+	N       int    `json:"n"`
+	Again   int    `json:"again_at"` // position after which the same object is processed again (-1: never)
+	Alpha   string `json:"alphabet,omitempty"`
+}
+
+func (c c10Long) alphabet() *c10Alphabet {
+	if c.Alpha != "" {
+		return c10Alphabets[c.Alpha]
+	}
+	return c10Alphabets["long"]
 }
 
 // c10LongHistory expands a pattern into operation indices of the "long" alphabet.
 func c10LongHistory(c c10Long) []int {
-	a := c10Alphabets["long"]
+	a := c.alphabet()
 	idx := func(typ int, ev uint32) int {
 		for i, v := range a.process {
 			if v.Type == typ && v.Event == ev {
@@ -552,6 +563,15 @@ func c10LongHistory(c c10Long) []int {
 		}
 		panic("c10: value not in alphabet")
 	}
+	idxPTS := func(typ int, ev uint32, pts uint64) int {
+		for i, v := range a.process {
+			if v.Type == typ && v.Event == ev && v.PTS == pts {
+				return i
+			}
+		}
+		panic("c10: value not in alphabet")
+	}
+	burstTypes := []int{0x20, 0x10, 0x22, 0x30, 0x34, 0x40, 0x50}
 	closeOp := func(k int) int { return len(a.process) + k }
 	var h []int
 	ev := func(i int) uint32 { return uint32(1 + i%3) }
@@ -581,6 +601,18 @@ func c10LongHistory(c c10Long) []int {
 		for i := 0; i < c.N; i++ {
 			h = append(h, idx(0x10, ev(i)), idx(0x13, ev(i)), idx(0x22, ev(i)), idx(0x13, ev(i+1)), idx(0x41, ev(i)), idx(0x50, 1), idx(0x14, ev(i)), idx(0x51, 1), closeOp(1))
 		}
+	case 5: // N pairwise different descriptors that all carry one signal time (event-major order)
+		for i := 0; i < c.N; i++ {
+			h = append(h, idxPTS(burstTypes[i%7], uint32(1+i/7), 500))
+		}
+	case 6: // the same, type-major order, alternating with descriptors of a second signal time
+		for i := 0; i < c.N; i++ {
+			h = append(h, idxPTS(burstTypes[i/3], uint32(1+i%3), 500), idxPTS(burstTypes[i/3], uint32(1+i%3), 600))
+		}
+	case 7: // N different descriptors with one signal time, each closed explicitly before the next arrives
+		for i := 0; i < c.N; i++ {
+			h = append(h, idxPTS(burstTypes[i%7], uint32(1+i/7), 500), closeOp(0))
+		}
 	}
 	if c.Again >= 0 && c.Again < len(h) {
 		again := a.nops() - 1
@@ -591,7 +623,7 @@ func c10LongHistory(c c10Long) []int {
 
 func c10CheckLong(c c10Long) engine.Result {
 	var res engine.Result
-	s := c10New(c10Alphabets["long"])
+	s := c10New(c.alphabet())
 	for i, op := range c10LongHistory(c) {
 		if !c10Apply(s, op, &res, i) {
 			continue
@@ -627,15 +659,35 @@ func init() {
 					}
 					for p := 0; p < 5; p++ {
 						for n := 1; n <= maxN; n++ {
-							base := c10Long{p, n, -1}
+							base := c10Long{Pattern: p, N: n, Again: -1}
 							emit(base)
 							for at := 0; at < len(c10LongHistory(base)); at++ {
-								emit(c10Long{p, n, at})
+								emit(c10Long{Pattern: p, N: n, Again: at})
 							}
 						}
 					}
 				},
 				Check: c10CheckLong, Batch: 8,
+			},
+			&engine.Enum[c10Long]{
+				Name: "same-pts-bursts",
+				Rule: "three patterns of N = 1..11 (thorough 1..14) pairwise different descriptors (7 opening types x event id 1..3) that all carry the same signal time (one PTS; alternating with a second PTS; each closed explicitly before the next), so that the tracker's record for one signal time holds many descriptors; the same object is processed again after every position and the identity monitor runs after every call." + common,
+				Gen: func(r *engine.Run, emit func(c10Long)) {
+					maxN := 11
+					if r.Thorough() {
+						maxN = 14
+					}
+					for p := 5; p <= 7; p++ {
+						for n := 1; n <= maxN; n++ {
+							base := c10Long{Pattern: p, N: n, Again: -1, Alpha: "burst"}
+							emit(base)
+							for at := 0; at < len(c10LongHistory(base)); at++ {
+								emit(c10Long{Pattern: p, N: n, Again: at, Alpha: "burst"})
+							}
+						}
+					}
+				},
+				Check: c10CheckLong, Batch: 4,
 			},
 			c10Scenario("core-deep", "BFS to depth 5 (thorough 6) over {Process for types {0x10,0x13,0x14,0x41,0x22,0x23} x event {1,2} with PTS = 100+position, Close(equal of the k-th internal element, k<2)}: the deepest breakaway/resumption/close interplay."+common,
 				"core", "core", 5, 6),
